@@ -617,6 +617,28 @@ def run_jwk(ctx):
                 add(argv, fs, _kind="thp", _keys=flat, _alg=alg or "S256", _out=out, _why="thumbprint of %d key(s) with %s" % (len(flat), alg))
     # find
     add(["jwk", "thp", "-i", "k.jwk", "-f", "x" * 43], {"k.jwk": hx(js({"keys": good}))}, _kind="find", _why="no key has that thumbprint")
+    # find with a match: in a set, among several -i, with another hash, behind an unusable key
+    import hashlib
+    def thp_of(k, h):
+        req = {"oct": ["k", "kty"], "RSA": ["e", "kty", "n"], "EC": ["crv", "kty", "x", "y"]}[k["kty"]]
+        return G.b64u(h(json.dumps({m: k[m] for m in req}, separators=(",", ":"), sort_keys=True).encode()).digest())
+    for i_, k in enumerate(good):
+        add(["jwk", "thp", "-i", "k.jwk", "-f", thp_of(k, hashlib.sha256)], {"k.jwk": hx(js({"keys": good}))}, _kind="findm", _match=k, _why="find key %d of a set" % i_)
+        add(["jwk", "thp", "-i", "k.jwk", "-a", "S1", "-f", thp_of(k, hashlib.sha1)], {"k.jwk": hx(js({"keys": good}))}, _kind="findm", _match=k, _why="find key %d of a set by S1" % i_)
+        add(["jwk", "thp", "-i", "k.jwk", "-f", thp_of(k, hashlib.sha1)], {"k.jwk": hx(js({"keys": good}))}, _kind="findm", _match=None, _why="S1 thumbprint searched under S256")
+        add(["jwk", "thp", "-i", "a.jwk", "-i", "b.jwk", "-f", thp_of(k, hashlib.sha256)], {"a.jwk": hx(js(good[(i_ + 1) % 4])), "b.jwk": hx(js(k))}, _kind="findm", _match=k, _why="find among two -i")
+    add(["jwk", "thp", "-i", "k.jwk", "-f", thp_of(good[1], hashlib.sha256)], {"k.jwk": hx(js({"keys": [broken[0], good[1]]}))}, _kind="findm", _match=None, _why="an unusable key before the match")
+    add(["jwk", "thp", "-i", "k.jwk", "-f", thp_of(good[1], hashlib.sha256)[:-1]], {"k.jwk": hx(js({"keys": good}))}, _kind="findm", _match=None, _why="a prefix of a thumbprint")
+    # eql with three keys: all must be equal
+    for trip in ([good[0]] * 3, [good[0], good[0], good[1]], [good[1], K.public(good[1]), good[1]], [good[0], good[1], good[0]]):
+        add(["jwk", "eql"] + sum((["-i", "k%d.jwk" % i] for i in range(3)), []), {"k%d.jwk" % i: hx(js(k)) for i, k in enumerate(trip)}, _kind="eqln", _keys=trip, _why="eql of three")
+    # exc with a template whose members collide with the result: the exchanged key's members win
+    add(["jwk", "exc", "-l", "l.jwk", "-r", "r.jwk", "-i", js({"kty": "oct", "x": "AAAA", "crv": "P-384", "kid": "t"})],
+        {"l.jwk": hx(js(pool["EC-P256"])), "r.jwk": hx(js(K.public(pool["EC-P256-b"])))}, _kind="exc", _l=pool["EC-P256"], _r=K.public(pool["EC-P256-b"]),
+        _tmpl={"kty": "oct", "x": "AAAA", "crv": "P-384", "kid": "t"}, _why="exchange with a colliding template")
+    # gen with two valid templates: a set of two keys, each as asked for
+    add(["jwk", "gen", "-i", js({"alg": "HS256"}), "-i", js({"alg": "ES256"})], {}, _kind="genn", _ts=[{"alg": "HS256"}, {"alg": "ES256"}], _random=True, _why="two templates")
+    add(["jwk", "gen", "-i", js({"keys": [{"alg": "HS512"}, {"kty": "oct", "bytes": 16}]})], {}, _kind="genn", _ts=[{"alg": "HS512"}, {"kty": "oct", "bytes": 16}], _random=True, _why="a set of templates")
     # pub
     for ks in [[k] for k in good + broken[:3]] + [good[:2], [{"keys": good}], [good[0], {"kty": "oct", "k": 5}], [5]]:
         for set_ in (False, True):
@@ -650,6 +672,8 @@ def run_jwk(ctx):
     for data in (b"", b"a", b"ab", b"abc", bytes(range(256)), rng.randbytes(1000)):
         add(["b64", "enc", "-I", "d.bin"], {"d.bin": hx(data)}, _kind="b64enc", _data=data, _why="encode %d bytes" % len(data))
         txt = G.b64u(data)
+        for t, valid in (("Zh", False), ("Zm9vY", False), ("Zm9v=", False), ("Zm9v Zh", False)) if data == b"a" else ():
+            add(["b64", "dec", "-i", "t.txt"], {"t.txt": hx(t)}, _kind="b64dec", _data=data, _text=t, _valid=valid, _why="decode %r" % t[:30])
         for t, valid in ((txt, True), (txt + "\n", True), (" " + txt[:3] + " \n" + txt[3:], True), (txt + "=", len(txt) % 4 == 0 and False), (txt + "A" if len(txt) % 4 == 0 else txt[:-1] + "*", False)):
             add(["b64", "dec", "-i", "t.txt"], {"t.txt": hx(t)}, _kind="b64dec", _data=data, _text=t, _valid=valid, _why="decode %r" % t[:30])
     # library oracles
@@ -710,6 +734,35 @@ def run_jwk(ctx):
                 return ("cli:jwk-eql:status", "jose jwk eql exits %s, jose_jwk_eql says %s" % (real.get("status"), a["_lib"][0].get("r")))
         elif k == "eql1" and ok:
             return ("cli:jwk-eql:status", "a single key compares equal")
+        elif k == "eqln":
+            ks_ = a["_keys"]
+            pub_ = lambda x: {m: v for m, v in x.items() if m in ("kty", "k", "crv", "x", "y", "n", "e")}
+            want = all(pub_(ks_[0]) == pub_(y) for y in ks_[1:])
+            if ok != want:
+                return ("cli:jwk-eql:status", "jose jwk eql of three keys exits %s, the keys are %s equal (%s)" % (real.get("status"), "all" if want else "not all", a["_why"]))
+        elif k == "findm":
+            if a["_match"] is None:
+                if ok or out.strip():
+                    return ("cli:jwk-thp:find", "a key was found although none has that thumbprint (%s): %r" % (a["_why"], out[:60]))
+            else:
+                try:
+                    got_ = json.loads(out)
+                except Exception:
+                    got_ = None
+                if not ok or got_ != a["_match"]:
+                    return ("cli:jwk-thp:find", "status %s, printed %r instead of the key with that thumbprint (%s)" % (real.get("status"), out[:80], a["_why"]))
+        elif k == "genn":
+            from props import c11
+            try:
+                ks_ = json.loads(out)["keys"] if ok else None
+            except Exception:
+                ks_ = None
+            if not ok or not isinstance(ks_, list) or len(ks_) != len(a["_ts"]):
+                return ("cli:jwk-gen:status", "jose jwk gen with %d templates: status %s, output %r" % (len(a["_ts"]), real.get("status"), out[:80]))
+            for t_, j_ in zip(a["_ts"], ks_):
+                err = c11.check_key(t_, j_, c11.expected(ctx, t_)[1])
+                if err:
+                    return ("cli:jwk-gen:output", err)
         elif k == "exc":
             v = a["_lib"][0].get("v")
             if ok != (v is not None):
